@@ -108,6 +108,9 @@ def operator(mult=None):
         st.tuples(st.just("iadd"), idx, idx).map(list),
         st.tuples(st.just("iadd"), idx, idx).map(list),
         st.tuples(st.just("iadd"), idx, idx).map(list),
+        # build the same thing again (same string / atom / dict / sequence as an earlier constructor):
+        # a constructor must give a fresh formula every time, whatever happened to the earlier one
+        st.tuples(st.just("again"), idx).map(list),
     )
 
 
@@ -206,8 +209,18 @@ def interpret(ops, observer=None, before=None, mag=(MAG_LO, MAG_HI)):
     vars_ = []
     flags = {"mul-multi": False, "iadd-after-operand": False, "kinds": [], "classes": set()}
     skipped = 0
+    ctor_ops = []
     for index, op in enumerate(ops):
         kind = op[0]
+        if kind == "again":
+            if not ctor_ops:
+                skipped += 1
+                continue
+            op = ctor_ops[op[1] % len(ctor_ops)]
+            kind = op[0]
+            flags["kinds"].append("again")
+        elif kind in ("str", "atom", "dict", "seq"):
+            ctor_ops.append(op)
         st_ = Step()
         st_.index, st_.op, st_.kind = index, op, kind
         st_.new = st_.changed = None
